@@ -162,7 +162,9 @@ Inductive sexpr : Type :=
 | SDetach (e : sexpr)                  (* Record::constant(e.number) *)
 | SUn (code : nat) (c : R) (e : sexpr)
 | SBin (code : nat) (e1 e2 : sexpr)
-| SFirst (e1 e2 : sexpr).              (* with_index closures: e1 at the first index, else e2 *)
+| SFirst (e1 e2 : sexpr)               (* with_index closures: e1 at the first index, else e2 *)
+| SOther.                              (* a clone of a variable (number 1, index 0) that lives on
+                                          ANOTHER WengertList (identifier 1) *)
 
 Fixpoint rec_eval (t : tape) (e : sexpr) (x : rec) (first : bool) : option (outcome (tape * rec)) :=
   match e with
@@ -192,11 +194,21 @@ Fixpoint rec_eval (t : tape) (e : sexpr) (x : rec) (first : bool) : option (outc
           end
       end
   | SFirst e1 e2 => if first then rec_eval t e1 x first else rec_eval t e2 x first
+  | SOther => Some (Ok (t, mkRec rI (Some 1) 0))
+  end.
+
+(* closures that only mention the element and constants (no record of another list) *)
+Fixpoint local_expr (e : sexpr) : bool :=
+  match e with
+  | SX | SK _ => true
+  | SDetach e1 | SUn _ _ e1 => local_expr e1
+  | SBin _ e1 e2 | SFirst e1 e2 => local_expr e1 && local_expr e2
+  | SOther => false
   end.
 
 Fixpoint uses_index (e : sexpr) : bool :=
   match e with
-  | SX | SK _ => false
+  | SX | SK _ | SOther => false
   | SDetach e1 | SUn _ _ e1 => uses_index e1
   | SBin _ e1 e2 => uses_index e1 || uses_index e2
   | SFirst _ _ => true
@@ -508,7 +520,7 @@ Inductive cop : Type :=
 | OBinary (mode code : nat) (a b : nat)
 | OMatmul (a b : nat)
 | OMap (mutating : bool) (e : sexpr) (a : nat)
-| OFromIter (tensor : bool) (sh : shape) (colmajor : bool) (a : nat)
+| OFromIter (tensor : bool) (sh : shape) (colmajor : bool) (e : sexpr) (a : nat)
 | OFromIters2 (e1 e2 : sexpr) (a : nat).
 
 Definition cstate : Type := tape * list cont.
@@ -554,14 +566,20 @@ Definition cstep (st : cstate) (o : cop) : option (outcome (tape * list cont)) :
                   end
       | None => None
       end
-  | OFromIter tensor sh colmajor a =>
+  | OFromIter tensor sh colmajor e a =>
+      (* from_iter(shape, iter_as_records (row or column major) .map(e)) *)
       match get a with
       | Some x =>
           if colmajor && c_tensor x then None else
           if negb tensor && negb (Nat.eqb (length sh) 2) then None else
           let rs := as_records x in
           let rs := if colmajor then column_major (c_shape x) rs else rs in
-          Some (omap (fun c => (t, [c])) (c_from_iter tensor sh rs))
+          match eval_each t e rs true with
+          | Some (Ok (t', ys)) => Some (omap (fun c => (t', [c])) (c_from_iter tensor sh ys))
+          | Some (Err e0) => Some (Err e0)
+          | Some Panic => Some Panic
+          | None => None
+          end
       | None => None
       end
   | OFromIters2 e1 e2 a =>
@@ -590,7 +608,10 @@ Fixpoint crun (st : cstate) (n : nat) (prog : list cop) : option (nat * outcome 
   | o :: r =>
       match cstep st o with
       | None => None
-      | Some (Ok (t', cs)) => crun (t', snd st ++ cs) (S n) r
+      | Some (Ok (t', cs)) =>
+          (* a container collected on a foreign list is outside the case language *)
+          if forallb (fun c => match c_hist c with Some h => Nat.eqb h 0 | None => true end) cs
+          then crun (t', snd st ++ cs) (S n) r else None
       | Some (Err e) => Some (n, Err e)
       | Some Panic => Some (n, Panic)
       end
@@ -733,14 +754,17 @@ Definition estep (st : estate) (o : cop) : option (outcome (tape * list econt)) 
           end
       | None => None
       end
-  | OFromIter tensor sh colmajor a =>
+  | OFromIter tensor sh colmajor e a =>
       match get a with
       | Some x =>
           if colmajor && e_tensor x then None else
           if negb tensor && negb (Nat.eqb (length sh) 2) then None else
           let rs := e_recs x in
           let rs := if colmajor then column_major (e_shape x) rs else rs in
-          Some (Ok (t, [mkECont tensor sh rs]))
+          match eval_each t e rs true with
+          | Some r => Some (omap (fun p => (fst p, [mkECont tensor sh (snd p)])) r)
+          | None => None
+          end
       | None => None
       end
   | OFromIters2 e1 e2 a =>
